@@ -226,6 +226,7 @@ def r2_stdout_pairing(ctx):
     fstart, fstop, fexit, finit, fenter = (ctx.func(CAP + '.' + m) for m in ('start', 'stop', '__exit__', '__init__', '__enter__'))
     # (c) same guard field
     guards = {}
+    full = {}
     for f in (fstart, fstop):
         g = ctx.cfg(f)
         dom = ctx.dom(g, g.entry)
@@ -235,10 +236,13 @@ def r2_stdout_pairing(ctx):
         for sn in stores:
             flds = sorted({field_name(fa.expr, recv) for fa in graph.guard_facts(dom, sn) if isinstance(fa.expr, ast.AST) and field_name(fa.expr, recv) and fa.polarity is True})
             guards[f.name] = flds
-    ok = guards.get('start') == guards.get('stop')
+            # the complete set of dominating conditions, receiver-normalised
+            full[f.name] = sorted({('%s%s' % ('' if fa.polarity is True else 'not ', fa.text)).replace(recv + '.', 'self.') for fa in graph.guard_facts(dom, sn) if fa.polarity in (True, False)})
+    ok = guards.get('start') == guards.get('stop') and full.get('start') == full.get('stop')
     rep.ob('C12.R2c', ctx.loc(fstop, fstop.node), 'start()/stop() guard', ok,
-           'acquire and release are guarded by the same field(s) %s: release happens iff acquire happened' % guards.get('start') if ok else
-           'start() is guarded by %s but stop() by %s: a capture that replaced sys.stdout may never restore it' % (guards.get('start'), guards.get('stop')), anchor=CAP)
+           'acquire and release are controlled by exactly the same condition(s) %s: release happens iff acquire happened' % full.get('start') if ok else
+           'start() replaces sys.stdout under %s but stop() restores it only under %s: a capture that replaced sys.stdout may never restore it '
+           '(e.g. when the doctest itself re-bound sys.stdout in between)' % (full.get('start'), full.get('stop')), anchor=CAP)
     # (d) saved object restored
     recv = finit.node.args.args[0].arg
     saved = [n for n in ast.walk(finit.node) if isinstance(n, ast.Assign) and _is_sys_attr(n.value, ('stdout',))]
@@ -349,10 +353,13 @@ def r3_syspath_pairing(ctx):
         if n.kind == 'stmt' and isinstance(n.ast, ast.Raise) and n.ast.exc is not None and not n.dup:
             toks = {tok for (_, k, tok) in n.succ if k == 'e'}
             in_h = [fr for fr in n.frames if fr.kind == 'try' and fr.phase == 'handler']
-            ok = toks == {('exact', 'RuntimeError')} and bool(in_h) and g._handler_classes(in_h[-1].handler) == ['ValueError'] and \
-                any(isinstance(c, ast.Call) and isinstance(c.func, ast.Attribute) and c.func.attr == 'index' for s in in_h[-1].stmt.body for c in ast.walk(s))
+            idx_calls = [c for s in (in_h[-1].stmt.body if in_h else []) for c in ast.walk(s) if isinstance(c, ast.Call) and isinstance(c.func, ast.Attribute) and c.func.attr == 'index' and _is_sys_attr(c.func.value, ('path',))]
+            whole = bool(idx_calls) and all(len(c.args) == 1 and not c.keywords for c in idx_calls)
+            ok = toks == {('exact', 'RuntimeError')} and bool(in_h) and g._handler_classes(in_h[-1].handler) == ['ValueError'] and whole
             rep.ob('C12.R3b', ctx.loc(fexit, n.ast), ctx.src(n.ast, 80), ok,
-                   'raises RuntimeError only where list.index proved the entry absent' if ok else 'an explicit raise leaves __exit__ although the inserted entry may still be in sys.path', anchor=PPC + '.__exit__')
+                   'raises RuntimeError only where an unbounded list.index proved the entry absent' if ok else
+                   ('the search that decides "entry absent" does not cover the whole of sys.path (%s): the inserted directory can be declared absent and left behind' % [ctx.src(c) for c in idx_calls]
+                    if idx_calls and not whole else 'an explicit raise leaves __exit__ although the inserted entry may still be in sys.path'), anchor=PPC + '.__exit__')
     # (c) CONTRADICTION: index evaluated after its bounds test failed
     dom = ctx.dom(g, g.entry)
     n_tests = 0
@@ -490,6 +497,8 @@ VARIANTS = [
          (UI, "            need_recover = True\n        elif sys.path[self.index] != self.dpath:  # nocover\n", "            need_recover = True\n\n        if sys.path[self.index] != self.dpath:  # nocover\n")),
     silent('bounds-test-rephrased',
            (UI, "        if len(sys.path) <= self.index:  # nocover\n", "        if not (self.index < len(sys.path)):  # nocover\n")),
+    fire('stop-restores-only-if-still-installed', 'C12.R2c', (US, "        if self.enabled:\n            self.started = False\n            sys.stdout = self.orig_stdout\n", "        if self.enabled:\n            self.started = False\n            if sys.stdout is self.cap_stdout:\n                sys.stdout = self.orig_stdout\n")),
+    fire('recovery-search-bounded', 'C12.R3b', (UI, "                real_index = sys.path.index(self.dpath)\n", "                real_index = sys.path.index(self.dpath, self.index)\n")),
     silent('explicit-start-stop-paired',
            (DE, "                        with cap:\n", "                        with cap:\n                            pass\n                        cap.start()\n                        try:\n                            pass\n                        finally:\n                            cap.stop()\n                        with cap:\n"),
            note='try/finally pairing is recognised as PAIRING, not as a bare start'),
